@@ -152,6 +152,39 @@ def generate(problems):
     if not de_prop:
         problems.append("subcmd_shape: propagation block of the default_env setter not found")
 
+    # ------------------------------------------------------------------ names of environment variables, default config files
+    src_f = open(os.path.join(REPO, "jsonargparse", "_formatters.py")).read()
+    tf = ast.parse(src_f)
+    gev = _find(tf, ast.FunctionDef, "get_env_var")
+    gev_body = [_u(x) for x in gev.body if not (isinstance(x, ast.Expr) and isinstance(x.value, ast.Constant))]
+    asc2 = _find(tc, ast.FunctionDef, "add_subcommands")
+    env_prefix_assign = [_u(x) for x in asc2.body if isinstance(x, ast.Assign) and "env_prefix" in _u(x)]
+    ep_true = []
+    for fn in ast.walk(tc):
+        if isinstance(fn, ast.FunctionDef) and fn.name == "env_prefix" and any("setter" in _u(d) for d in fn.decorator_list):
+            for x in ast.walk(fn):
+                if isinstance(x, ast.If) and _u(x.test) == "env_prefix is True":
+                    ep_true = [_u(y) for y in x.body]
+    gdcf = _find(tc, ast.FunctionDef, "_get_default_config_files")
+    gdcf_body = [_u(x) for x in gdcf.body if isinstance(x, ast.For)]
+    ppc = _find(ta, ast.FunctionDef, "parent_parsers_context")
+    ppc_body = [_u(x) for x in ppc.body if isinstance(x, ast.Assign)]
+    gd_loop = []
+    for x in gd.body:
+        if isinstance(x, ast.For) and "default_config_files" in _u(x.iter):
+            for y in ast.walk(x):
+                if isinstance(y, ast.Assign) and _u(y.targets[0]) in ("cfg_file", "cfg") and "_parse_common" not in _u(y):
+                    gd_loop.append(_u(y))
+    lcpm = _find(tc, ast.FunctionDef, "_load_config_parser_mode")
+    key_sel = [_u(x) for x in lcpm.body if isinstance(x, ast.If) and "key" in _u(x.test)]
+    hs_ctx = [_u(i.context_expr) for x in ast.walk(hs) if isinstance(x, ast.With) for i in x.items] + \
+             [_u(x) for x in ast.walk(hs) if isinstance(x, ast.Assign) and _u(x.targets[0]) == "key"]
+    pde = _find(tc, ast.FunctionDef, "_parse_defaults_and_environ")
+    pde_merge = [_u(x) for x in ast.walk(pde) if isinstance(x, ast.Assign) and "merge_config" in _u(x)]
+    lev_tests = [_u(x.test) for x in le.body if isinstance(x, ast.For) for x in x.body if isinstance(x, ast.If)]
+    if not (gev_body and env_prefix_assign and gdcf_body and ppc_body and key_sel):
+        problems.append("subcmd_shape: environment-name / default-config statements not found")
+
     body = "namespace Jap.Gen.SubcmdShape\n"
     body += "def keysExpr : String := %s\n" % lean_str(keys_expr or "")
     body += "def explicitTest : String := %s\n" % lean_str(explicit_test or "")
@@ -177,6 +210,13 @@ def generate(problems):
     body += "def envBranch : List String := %s\n" % lean_str_list(env_branch)
     body += "def applyLinksHead : List String := %s\n" % lean_str_list(head)
     body += "def addSubcommand : List String := %s\n" % lean_str_list(add_sub)
+    body += "def getEnvVarBody : List String := %s\n" % lean_str_list(gev_body)
+    body += "def envPrefixOfSubcommands : List String := %s\n" % lean_str_list(env_prefix_assign + ep_true)
+    body += "def defaultConfigFilesLoops : List String := %s\n" % lean_str_list(gdcf_body)
+    body += "def parentParsersContext : List String := %s\n" % lean_str_list(ppc_body + hs_ctx)
+    body += "def defaultConfigLoad : List String := %s\n" % lean_str_list(key_sel + gd_loop)
+    body += "def envOverDefaults : List String := %s\n" % lean_str_list(pde_merge)
+    body += "def loadEnvVarsLoops : List String := %s\n" % lean_str_list(lev_tests)
     body += "def defaultEnvPropagation : List String := %s\n" % lean_str_list(de_prop)
     body += "end Jap.Gen.SubcmdShape\n"
     write_if_changed("SubcmdShape.lean", body)
